@@ -125,7 +125,7 @@ def scen_accept(ch, params, out):
     if out.failures:
         return
     fw = ch.choose("framework", params.get("frameworks", FRAMEWORKS))
-    layout = ch.choose("layout", ["flat", "nested"])
+    layout = ch.choose("layout", params.get("layouts", ["flat", "nested"]))
     if layout == "nested" and not pipeline.is_tree(reg):
         return
     max_literals = ch.choose("max_literals", params.get("max_literals", [10]))
@@ -193,17 +193,20 @@ def parts(tier):
                shards=16, timeout=170, path_timeout=30, mode="CH-P+CH-E"),
         ]
     return [
-        CH("pairs_all_options", "vflib.props.c01:scen_accept",
+        CH("pairs_inference_options", "vflib.props.c01:scen_accept",
            {"kinds": "KINDS_FULL", "samples": 2, "keys": ["a"], "merge": ["default", "exact", "p50n2"], "registries": ["default", "none"],
-            "dkf": True, "dkr": True, "max_literals": [10, 0], "converters": True},
-           shards=16, timeout=1500, path_timeout=30, mode="CH-P+CH-E"),
+            "dkf": True, "dkr": True, "frameworks": ["pydantic", "dataclasses"], "layouts": ["flat"]},
+           shards=16, timeout=900, path_timeout=30, mode="CH-P+CH-E"),
+        CH("pairs_emission_options", "vflib.props.c01:scen_accept",
+           {"kinds": "KINDS_FULL", "samples": 2, "keys": ["a"], "max_literals": [10, 0, 1], "converters": True},
+           shards=16, timeout=900, path_timeout=30, mode="CH-P+CH-E"),
         CH("triples", "vflib.props.c01:scen_accept", {"kinds": "KINDS_FULL", "samples": 3, "keys": ["a"], "frameworks": ["pydantic", "attrs"]},
-           shards=16, timeout=1500, path_timeout=30, mode="CH-P+CH-E"),
+           shards=16, timeout=900, path_timeout=30, mode="CH-P+CH-E"),
         CH("two_keys", "vflib.props.c01:scen_accept", {"kinds": "KINDS_SMALL", "samples": 2, "keys": ["a", "b"], "frameworks": ["pydantic", "dataclasses", "base"]},
-           shards=16, timeout=1500, path_timeout=30, mode="CH-P+CH-E"),
+           shards=16, timeout=900, path_timeout=30, mode="CH-P+CH-E"),
         CH("three_nested_fields", "vflib.props.c01:scen_accept",
            {"kinds": "KINDS_NEST", "samples": 1, "keys": ["a", "b", "c"], "merge": ["default", "p50n2"]},
-           shards=16, timeout=1500, path_timeout=30, mode="CH-P+CH-E"),
+           shards=16, timeout=900, path_timeout=30, mode="CH-P+CH-E"),
         CH("datetime", "vflib.props.c01:scen_accept",
            {"kinds": "KINDS_DATE", "samples": 3, "keys": ["a"], "registries": ["datetime"], "frameworks": ["pydantic", "dataclasses", "attrs", "sqlmodel"]},
            shards=12, timeout=900, path_timeout=30, mode="CH-E"),
